@@ -291,6 +291,7 @@ type agg struct {
 	wallMS      int64
 	crashes     []string
 	raceReports map[string]string
+	hangs       []*outLine
 }
 
 func runCheck(prop, tier string) int {
@@ -340,6 +341,22 @@ func runCheck(prop, tier string) int {
 	}
 	wg.Wait()
 
+	// watchdog expiries outside C09/C11: replay alone with a long watchdog
+	for i, h := range a.hangs {
+		if i >= 5 {
+			break
+		}
+		rf := sim.ReplayFile{Property: prop, Engine: cfg.Engine, Oracle: "infra", Signature: "hang", Seed: h.Seed, Run: h.Run, Plan: h.Plan}
+		path := filepath.Join(b.scratch, fmt.Sprintf("hang%d.json", i))
+		rb, _ := json.Marshal(rf)
+		os.WriteFile(path, rb, 0o644)
+		out, _ := runTimeout(6*time.Minute, b.scratch, append(append([]string{}, env...), "VERIF_WATCHDOG_MS=180000"), b.worker, "-replay", path, "-scratch", filepath.Join(b.scratch, "hangrep"))
+		if strings.Contains(out, "\"infra\":\"hang") || strings.Contains(out, "FATAL: hang") {
+			a.infra = append(a.infra, fmt.Sprintf("run %d: %s (reproduced alone with a 180 s watchdog)", h.Run, h.Infra))
+		} else {
+			a.counters["watchdog_expiry_not_reproduced"]++
+		}
+	}
 	exit := 0
 	// determinism probe: the same (seed, run) executed in fresh processes at
 	// different GOMAXPROCS must give byte-identical results (steps, schedule
@@ -644,7 +661,13 @@ func (a *agg) add(ol *outLine) {
 		a.samples = append(a.samples, ol.Sample)
 	}
 	if ol.Infra != "" {
-		a.infra = append(a.infra, fmt.Sprintf("run %d: %s", ol.Run, ol.Infra))
+		if strings.HasPrefix(ol.Infra, "hang") && ol.Plan != nil {
+			// a watchdog expiry may be a starved machine: re-executed alone at the end
+			cp := *ol
+			a.hangs = append(a.hangs, &cp)
+		} else {
+			a.infra = append(a.infra, fmt.Sprintf("run %d: %s", ol.Run, ol.Infra))
+		}
 	}
 	if ol.Viol != nil {
 		k := ol.Viol.Key()
